@@ -282,8 +282,16 @@ func parseOp(line string) (op string, u universe, cs []call, rest []string, ok b
 }
 
 func recheck(oracle string, ops, res []string) (bool, string) {
-	if len(ops) != 1 || len(res) != 1 {
-		return true, "oracle takes one op"
+	if len(ops) != len(res) || len(ops) == 0 {
+		return true, "oracle needs ops"
+	}
+	if len(ops) > 1 { // several witnesses: violated if any is
+		for i := range ops {
+			if bad, d := recheck(oracle, ops[i:i+1], res[i:i+1]); bad {
+				return true, d
+			}
+		}
+		return false, ""
 	}
 	if oracle == "race" {
 		if res[0] != "ok races=0" {
@@ -383,9 +391,16 @@ func classify(oracle string, ops, res []string) string {
 		return ""
 	}
 	switch oracle {
-	case "flatten", "b5":
+	case "flatten":
 		if universeNoRange(u) {
 			return "F-C18-alias-norange"
+		}
+	case "b5":
+		if universeNoRange(u) {
+			return "F-C18-alias-norange"
+		}
+		if universeOpen(u) {
+			return "F-C18-unknown-package"
 		}
 	}
 	return ""
@@ -395,6 +410,11 @@ func main() {
 	if len(os.Args) >= 2 && os.Args[1] == "concworker" {
 		concWorker(os.Args[2:])
 		return
+	}
+	if len(os.Args) >= 2 && os.Args[1] == "drive" {
+		// Build the -race variant before any op runs: a cold build (~30 s) inside an op
+		// would trip the framework's 20 s per-op watchdog.
+		buildRaceBinary()
 	}
 	fw.Main(&fw.Prop{
 		ID:       "C18",
